@@ -183,7 +183,10 @@ def binop(I, st, op, l, r, node):
         f = (lambda a, b: _band(a, b)) if isinstance(op, ast.BitAnd) else (lambda a, b: _bor(a, b))
         return lift2(I, st, f, l, r, kind="bool")
     if isinstance(op, ast.MatMult):
-        return EXT["numpy.matmul"](I, st, [l, r], {}, node)
+        h = I.ext.get("numpy.matmul")
+        if h is None:
+            raise Unsupported("matrix product `@` has no assumed contract here")
+        return h(I, st, [l, r], {}, node)
     f = BIN.get(type(op))
     if f is None:
         raise Unsupported(f"binary operator {type(op).__name__}")
@@ -603,6 +606,34 @@ def b_range(I, st, args, kw, node):
     if len(args) == 2:
         return Opaque("range", lo=args[0], hi=args[1])
     raise Unsupported("range with step")
+
+
+@ext("builtins.super", "super(): method lookup continues in the (single) base class of the class whose method is executing")
+def b_super(I, st, args, kw, node):
+    if args:
+        raise Unsupported("super(cls, obj)")
+    mod, qn = I.cur[-1]
+    if "." not in qn or "self" not in st.env:
+        raise Unsupported("super() outside a method")
+    return Opaque("super", obj=st.env["self"], module=mod, cls=qn.rsplit(".", 1)[0])
+
+
+def instantiate(module, cls, frozen=False):
+    """Generic constructor contract: a new object of class `cls` whose real __init__ (resolved through the base classes)
+    runs inline."""
+    def h(I, st, args, kw, node):
+        from .interp import _Outcomes
+        obj = st.new_obj(cls, __module__=module)
+        dcls, fdef = I.class_of_method(module, cls, "__init__")
+        if fdef is None:
+            return obj
+        I.inlined.add((module, f"{dcls}.__init__"))
+        outs = I.call_function(module, f"{dcls}.__init__", st, list(args), dict(kw), self_val=obj, fdef=fdef)
+        for o in outs:
+            if o.kind == "return":
+                o.value = obj
+        return _Outcomes(outs)
+    return h
 
 
 @ext("builtins.int")
